@@ -14,7 +14,11 @@ FUNCS = ["controller.New", C + "ReadJOYP", C + "WriteJOYP", C + "ButtonAction"]
 
 
 def tasks(ctx):
-    return filter_tasks([Task(f, f) for f in FUNCS])
+    ts = [Task(f, f) for f in FUNCS]
+    # "JOYP select writes" reach the controller: the bus routes FF00 to ReadJOYP / WriteJOYP in every machine state (decoder lemma)
+    import props.mapper_common as mc
+    ts += [mc.routing_task("mbc1", cls, "C22") for cls in mc.memory_map() if cls[0] == "JOYP"]
+    return filter_tasks(ts)
 
 
 # components whose representation invariants the lemmas above assume in every reachable state (engine/closure.py adds
